@@ -747,7 +747,9 @@ tls_mem_equal(char *mem1, char *mem2, size_t len1, size_t len2)
 {
 	if (len1 != len2)
 		return false;
-	if (mem1 && mem2 && memcmp(mem1, mem2, len1) != 0)
+	if ((mem1 == NULL) != (mem2 == NULL))
+		return false;
+	if (mem1 != NULL && memcmp(mem1, mem2, len1) != 0)
 		return false;
 	return true;
 }
